@@ -48,12 +48,24 @@ func srcBudget(n int) int { return 64*n + 4096 }
 const (
 	ProfBytes  = "bytes.Reader"
 	ProfOSFile = "os.File"
+	// the payload reader the library itself hands out: carv2.NewReader(x).DataReader()
+	ProfDataReader = "Reader.DataReader"
 )
 
 // openSource returns the reader for a profile, the simulated core (nil for the
 // two real kinds), a function giving the highest offset consumed, and a cleanup.
 func openSource(data []byte, profile string, del sim.Delivery) (io.Reader, *sim.SrcCore, func() int64, func()) {
 	switch profile {
+	case ProfDataReader:
+		rd, err := carv2.NewReader(bytes.NewReader(data))
+		if err != nil {
+			panic(&InfraError{"DataReader source: " + err.Error()})
+		}
+		dr, err := rd.DataReader()
+		if err != nil {
+			panic(&InfraError{"DataReader source: " + err.Error()})
+		}
+		return dr, nil, func() int64 { return 0 }, func() {}
 	case ProfBytes:
 		r := bytes.NewReader(data)
 		return r, nil, func() int64 { return int64(len(data) - r.Len()) }, func() {}
@@ -80,7 +92,13 @@ func runC14One(l *Layout, choices string, profile string, del sim.Delivery, opts
 	defer done()
 	var br *carv2.BlockReader
 	var err error
-	loc := fmt.Sprintf("v%d/%s", map[bool]int{false: 1, true: 2}[l.Spec.V2], map[bool]string{false: "stream", true: "seekable"}[sim.IsSeekable(profile) || profile == ProfBytes || profile == ProfOSFile])
+	loc := fmt.Sprintf("v%d/%s", map[bool]int{false: 1, true: 2}[l.Spec.V2], map[bool]string{false: "stream", true: "seekable"}[sim.IsSeekable(profile) || profile == ProfBytes || profile == ProfOSFile || profile == ProfDataReader])
+	if profile == ProfDataReader {
+		if l.Spec.V2 {
+			return nil // the DataReader of a CARv2 is the bare payload: a different archive; covered for CARv1
+		}
+		loc = "v1/datareader"
+	}
 	if pv := safeCall(func() { br, err = carv2.NewBlockReader(rd, opts.Options()...) }); pv != nil {
 		return viol("medium/panic/blockreader-new", "NewBlockReader panicked on a valid archive: %v", pv)
 	}
@@ -199,9 +217,9 @@ func RunC14(t *Trace, st *Stats) *Violation {
 	}
 	var first *Violation
 	seen := map[string]bool{}
-	for _, prof := range append(append([]string{}, readerProfiles...), ProfBytes, ProfOSFile) {
+	for _, prof := range append(append([]string{}, readerProfiles...), ProfBytes, ProfOSFile, ProfDataReader) {
 		dels := []sim.Delivery{{ErrAt: -1}, GenDelivery(r), {Chunks: []int{1}, ErrAt: -1, EOFWithData: true}}
-		if prof == ProfBytes || prof == ProfOSFile {
+		if prof == ProfBytes || prof == ProfOSFile || prof == ProfDataReader {
 			dels = dels[:1] // real readers deliver as they please
 		}
 		for di, del := range dels {
